@@ -14,7 +14,7 @@ R5 files whole / lock covers: C07-R2,R3 and C02-R2,R3 (run here as well).
 """
 import re
 from .. import cfg
-from ..common import (return_values_r, trace_bool, bool_switch_targets, enum_switch, ty_variants, single_def,
+from ..common import (return_values_r, only_err_returns, trace_bool, bool_switch_targets, enum_switch, ty_variants, single_def,
                       return_values, field_switches, dominated_region)
 from ..facts import op_place, op_const, rv_str
 from ..prov import Prov
@@ -123,26 +123,97 @@ def consumers(body, local):
     return carriers, calls, discr
 
 
+RUNS_ALL = r"Iterator>?::(try_for_each|for_each)$|::(try_for_each|for_each)$"   # the closure runs for every element (until it reports a failure)
+
+
+def _closure_driver(facts, kb):
+    """for a registration inside a closure: (body, adaptor call, closure creation stmt) where the closure is handed
+    to an iterator adaptor — looked up in the flattened bodies, skipping helpers that only exist inlined"""
+    skip = facts.fully_inlined()
+    out = []
+    for pb in facts.non_test_bodies():
+        if pb.id in skip:
+            continue
+        for bb in sorted(pb.reachable_blocks()):
+            for st in pb.blocks[bb]["stmts"]:
+                if st["k"] == "assign" and st["rv"]["k"] == "agg" and st["rv"].get("def") == kb.id and not st["dst"]["p"]:
+                    cl = st["dst"]["l"]
+                    for a in pb.calls:
+                        for arg in a.args:
+                            p = op_place(arg)
+                            if p is not None and not p["p"] and (p["l"] == cl or _copy_of_local(pb, p["l"], cl)):
+                                out.append((pb, a, st))
+    return out
+
+
+def _copy_of_local(body, l, target, depth=0):
+    d = single_def(body, l)
+    if d and d[1] == "assign" and d[2]["rv"]["k"] == "use" and depth < 4:
+        p = op_place(d[2]["rv"]["op"])
+        if p is not None and not p["p"]:
+            return p["l"] == target or _copy_of_local(body, p["l"], target, depth + 1)
+    return False
+
+
 def rule_signal_set(ctx, facts):
     sites = []
+    skip = facts.fully_inlined()
     for b in facts.non_test_bodies():
+        if b.id in skip:
+            continue
         for c in b.calls_to(REGISTER):
             sites.append((b, c))
+    # a registration written as `signals.into_iter().try_for_each(|s| register(s, flag))`: the site that matters for
+    # ordering and error handling is the adaptor call; the signals are the elements of the iterated array
+    eff = []
+    for (b, c) in sites:
+        if not b.kind.startswith("closure"):
+            eff.append((b, c, None))
+            continue
+        drv = _closure_driver(facts, b)
+        if len(drv) == 1:
+            eff.append((b, c, drv[0]))
+        else:
+            eff.append((b, c, None))
     ctx.check(len(sites) >= 1, "C18-R1", "registration-anchor",
               "signal registration site(s) exist (%d found)" % len(sites),
               ", ".join(c.where() for _, c in sites))
     covered = set()
-    for b, c in sites:
+    out_sites = []
+    for b, c, drv in eff:
         prov = Prov(b)
         org = prov.origins_op(c.args[0]) if c.args else set()
         vals = set()
         computed = []
-        for o in org:
-            if o[0] == "const" and "int" in dict(o[1]):
-                vals.add(dict(o[1])["int"])
-            else:
-                computed.append(o[0])
         flag_ok = len(c.args) > 1 and _has_field(b, c.args[1], "stop_commanded")
+        if drv is not None and org == {("param", 2)}:
+            pb, A, cst = drv
+            # the closure's argument is the element: the set is what the adaptor iterates over
+            if A.matches(RUNS_ALL) and not A.local:
+                pp = Prov(pb)
+                for o in pp.origins_op(A.args[0]):
+                    if o[0] == "const" and "int" in dict(o[1]):
+                        vals.add(dict(o[1])["int"])
+                    else:
+                        computed.append(o[0])
+            else:
+                computed.append("closure driven by `%s`, which does not run it for every element" % A.name.split("::")[-1])
+            # the flag: a capture of the closure, bound where the closure is created
+            fo = prov.origins_op(c.args[1]) if len(c.args) > 1 else set()
+            for o in fo:
+                if o[0] == "upvar":
+                    from ..interproc import upvar_index
+                    i = upvar_index(b, o[1])
+                    if i is not None and i < len(cst["rv"]["ops"]):
+                        flag_ok = flag_ok or _has_field(pb, cst["rv"]["ops"][i], "stop_commanded")
+            out_sites.append((pb, A))
+        else:
+            for o in org:
+                if o[0] == "const" and "int" in dict(o[1]):
+                    vals.add(dict(o[1])["int"])
+                else:
+                    computed.append(o[0])
+            out_sites.append((b, c))
         key = "%s|%s" % (b.id, c.name)
         ctx.check(not computed, "C18-R1", "computed|" + key,
                   "signal operand of %s is built only from constants (found: %s)" % (c.name, sorted(vals) if not computed else "a computed value: " + ",".join(sorted(set(computed)))),
@@ -156,7 +227,7 @@ def rule_signal_set(ctx, facts):
         ctx.check(sig in covered, "C18-R1", "missing|%s" % name,
                   "%s (%d) is registered to set the stop flag (registered set: %s)" % (name, sig, sorted(covered)),
                   ", ".join(c.where() for _, c in sites))
-    return sites
+    return out_sites
 
 
 def rule_registration_order(ctx, facts, sites):
@@ -199,9 +270,9 @@ def rule_registration_order(ctx, facts, sites):
             if arm is None:
                 continue
             checked = True
-            region = cfg.reach(b, [arm])
-            rets = [(rb, st) for (rb, st) in return_values(b) if rb in region]
-            good = rets and all(is_err_agg(st) for _, st in rets)
+            region = cfg.reach_t(b, arm)
+            rets = [(rb, st) for (rb, st) in return_values_r(b) if rb in region]
+            good = (rets and all(is_err_agg(st) for _, st in rets)) or only_err_returns(b, arm)
             loops_back = c.bb in region
             ctx.check(bool(good) and not loops_back, "C18-R2", "regfail|%s" % b.id,
                       "a failed registration reaches only Err returns (%s)" % ", ".join(rv_str(st["rv"]) for _, st in rets), b.where(bb))
@@ -294,6 +365,15 @@ def rule_interrupted_nonzero(ctx, facts):
         for c in b.calls_to(r"generate::process_references$"):
             n += 1
             key = "%s|%s" % (b.id, re.sub(r".*process_references::<([^,>]+).*", r"\1", c.full))
+            # decided on shapes first: with the pass's result = None, every feasible path to a return yields Err
+            # (through `match`, `?`, ok_or / map_err ...; an opaque combinator such as map_or loses the shape)
+            if not c.dst["p"] and c.target is not None and b.local_ty(c.dst["l"]).startswith("std::option::Option<"):
+                rs = cfg.return_shapes(b, c.target, state={c.dst["l"]: (0, ())})
+                if rs and all(sh is not None and sh[0] == 1 for _, sh in rs) and b.local_ty(0).startswith("std::result::Result<"):
+                    ctx.check(True, "C18-R4", "combinator|" + key, "the Option from process_references is consumed only by shape-preserving steps", c.where())
+                    ctx.check(True, "C18-R4", "none-arm|" + key, "`None` (stopped) from the pass reaches only Err returns (decided on value shapes: %d return state(s))" % len(rs), c.where())
+                    ctx.check(True, "C18-R4", "unmatched|" + key, "the Option from process_references is examined", c.where())
+                    continue
             carriers, calls, discr = consumers(b, c.dst["l"])
             other = [x for x in calls if x.bb != c.bb]
             ctx.check(not other, "C18-R4", "combinator|" + key,
@@ -313,7 +393,7 @@ def rule_interrupted_nonzero(ctx, facts):
                     found = True
                     region = cfg.reach_t(b, none_arm)   # variant-tracked: an Err built here and handed on through `?` stays Err
                     rets = [(rb, st) for (rb, st) in return_values_r(b) if rb in region]
-                    good = rets and all(is_err_agg(st) for _, st in rets)
+                    good = (rets and all(is_err_agg(st) for _, st in rets)) or only_err_returns(b, none_arm)
                     ctx.check(bool(good), "C18-R4", "none-arm|" + key,
                               "`None` (stopped) from the pass reaches only Err returns (%s)" % (", ".join(rv_str(st["rv"]) for _, st in rets) or "no return"),
                               b.where(sb))
